@@ -77,7 +77,9 @@ def _dataclass_parameters(class_: Class) -> list[Parameter]:
     # Iterate on current attributes to find parameters.
     parameters = []
     for member in class_.members.values():
-        if member.is_attribute:
+        # Names imported in the class body are never fields (fields are annotated assignments),
+        # and such aliases cannot always be resolved.
+        if not member.is_alias and member.is_attribute:
             member = cast("Attribute", member)
 
             # All dataclass parameters have annotations.
